@@ -163,8 +163,11 @@ type verifROp struct {
 	Meta            int
 	PrevEmpty       bool // pass the empty hash as prevHash instead of the snapshot's address
 
-	NewSym string      // symbol of the commit / tag this op creates
-	Inter  []*verifROp // other clients' ops injected before the 1st, 2nd, ... root swap of this op
+	// MetaTag selects the commit metadata (description and pinned dates): "u<n>" is used once,
+	// "p<n>" comes from a tiny pool, so that two calls can build the byte-identical commit.
+	MetaTag string
+	NewSym  string      // symbol of the commit / tag this op creates (commits: filled in by predict, content-addressed)
+	Inter   []*verifROp // other clients' ops injected before the 1st, 2nd, ... root swap of this op
 }
 
 func (o *verifROp) String() string {
@@ -210,6 +213,7 @@ func (o *verifROp) String() string {
 type verifRCommitInfo struct {
 	parents []string
 	value   string
+	meta    string
 }
 
 type verifRClientM struct {
@@ -242,6 +246,7 @@ type verifROutcome struct {
 	Noop           bool   // success without a swap (fast-forward to the current head)
 	FirstHashMerge bool   // delete rejected because the branch moved between two attempts
 	Forcing        bool
+	Rebuilt        bool // the commit this call builds is byte-identical to one built before
 	TrivialNoop    bool // a no-op edit acknowledged by the store although the root had moved
 	// accepted non-forcing commit / fast-forward of an existing branch: the head before and after
 	PrevHead, NewHead string
@@ -260,12 +265,13 @@ type verifRModel struct {
 	landed     map[string]int // commit symbol -> seq at which it first appeared in the map
 	seq        int            // number of successful root swaps
 	lastWriter map[string]int
+	interned   map[string]string // content key of a commit -> its symbol
 	history    []verifRState // global after every successful swap (index = seq); history[0] = empty map
 }
 
 func verifRNewModel(k int, separate bool) *verifRModel {
 	m := &verifRModel{separate: separate, global: verifRState{}, commits: map[string]verifRCommitInfo{},
-		landed: map[string]int{}, lastWriter: map[string]int{}}
+		landed: map[string]int{}, lastWriter: map[string]int{}, interned: map[string]string{}}
 	for i := 0; i < k; i++ {
 		m.clients = append(m.clients, &verifRClientM{snap: map[string]string{}, view: verifRState{}, own: map[string]bool{}})
 	}
@@ -338,6 +344,19 @@ func (m *verifRModel) candidates(c int) []string {
 	return out
 }
 
+// intern returns the symbol of the commit with this content: commits are content-addressed, so
+// two calls that pass the same value, parents and metadata build the same commit.
+func (m *verifRModel) intern(value string, parents []string, meta string) (sym string, existed bool) {
+	key := value + "|" + strings.Join(parents, ",") + "|" + meta
+	if s, ok := m.interned[key]; ok {
+		return s, true
+	}
+	sym = fmt.Sprintf("c%d", len(m.interned)+1)
+	m.interned[key] = sym
+	m.commits[sym] = verifRCommitInfo{parents: append([]string{}, parents...), value: value, meta: meta}
+	return sym, false
+}
+
 func verifRContains(xs []string, x string) bool {
 	for _, y := range xs {
 		if y == x {
@@ -405,6 +424,10 @@ func (m *verifRModel) eval(op *verifROp, out *verifROutcome, st verifRState, fir
 	case verifRCommit:
 		if cur != out.SnapID {
 			return verifREvalFail, "merge", nil
+		}
+		if cur != "" && cur == op.NewSym {
+			// doCommit: the head already is this very commit (a no-op amend, or a forced rebuild)
+			return verifREvalFail, "already", nil
 		}
 		next = st.clone()
 		next[op.ID] = op.NewSym
@@ -536,6 +559,9 @@ func (m *verifRModel) predict(op *verifROp) *verifROutcome {
 			return out
 		}
 		newParents = ps
+		if op.NewSym == "" || op.MetaTag != "" {
+			op.NewSym, out.Rebuilt = m.intern(op.Value, ps, op.MetaTag)
+		}
 		if op.Kind == verifRCommitWS {
 			out.NewWS = verifRWSSym(op.Working, op.Staged, op.Meta)
 		}
@@ -580,8 +606,8 @@ func (m *verifRModel) predict(op *verifROp) *verifROutcome {
 		}
 		if st.equal(m.global) {
 			// the swap lands
-			if verifRIsCommitSym(op.NewSym) && (op.Kind == verifRCommit || op.Kind == verifRCommitWS) {
-				m.commits[op.NewSym] = verifRCommitInfo{parents: newParents, value: op.Value}
+			if _, ok := m.commits[op.NewSym]; !ok && (op.Kind == verifRCommit || op.Kind == verifRCommitWS) {
+				m.commits[op.NewSym] = verifRCommitInfo{parents: newParents, value: op.Value, meta: op.MetaTag}
 			}
 			m.seq++
 			for id := range st.diffKeys(next) {
